@@ -21,8 +21,10 @@ class C12(P.Property):
     tiers = {"quick": dict(runs=8000, budget_s=60), "thorough": dict(runs=180000, budget_s=800)}
     technique = ("deterministic simulation: seeded interleavings of up to three overlapping websocket connections on one service id "
                  "(virtual-time loop, in-memory TCP, cleanup timer schedulable), history oracle over server-side events + probe")
-    level_text = ("seeded exploration of interleavings (connection opens, requests, graceful/aborted closes, gaps around the 1 s "
-                  "cleanup window, latency/segmentation/timer skew) checked by a history oracle; evidence, not proof")
+    level_text = ("seeded exploration of interleavings (connection opens, requests, graceful/aborted closes, gaps around the 1 s cleanup "
+                  "window and up to 45 s, latency/segmentation/timer skew, zero-latency ties and busy-loop batching, gc points, read errors on "
+                  "the state file; thorough: 9 MiB indexes) checked by a history oracle over server-side events plus a final probe; "
+                  "evidence, not proof")
     level_note = ("trusted: the simulator (sim/ssesim/core.py), the oracle in props/c12.py; TCP is modelled as ordered reliable "
                   "streams with seeded latency; websockets 10.4 and the repo's server run unmodified")
     rule = ("plan = initial durable state {0,1,2} + scripts of 2-3 actors over {open, config, upload, search, close, abort} merged by a "
